@@ -8,8 +8,10 @@ package main
 //	v4setget <Constructor> <arg> <def ns>
 
 import (
+	"bytes"
 	"fmt"
 	"net"
+	"reflect"
 	"sort"
 	"strconv"
 	"strings"
@@ -382,7 +384,19 @@ func execV4Acc(op string, args []string) string {
 		default:
 			return "bad-op"
 		}
-		return "ok " + a.run(p, time.Duration(atoi64(args[3])))
+		out := a.run(p, time.Duration(atoi64(args[3])))
+		// what an accessor returns is the caller's: a handler that edits the value it
+		// got (adds a sub-option to the relay information before copying it into the
+		// reply, sorts or trims a list) and asks again gets the interpretation of the
+		// option's octets again, not its own edits (seeded change C17-15: the decoded
+		// relay-agent information memoised per packet and handed out again)
+		raw := append([]byte(nil), p.Options[a.code]...)
+		if v4accScribbleResult(p, a.name) && bytes.Equal(raw, p.Options[a.code]) {
+			if again := a.run(p, time.Duration(atoi64(args[3]))); again != out {
+				return "ok " + out + " THEN-after-the-caller-edited-the-returned-value " + again
+			}
+		}
+		return "ok " + out
 	case "v4hist":
 		return v4accExecHist(args)
 	case "v4accdec":
@@ -1018,3 +1032,66 @@ func init() {
 }
 
 var _ = sort.Ints
+
+// v4accScribbleResult calls the accessor by name and overwrites whatever mutable memory
+// its result is made of (bytes, list elements, map entries); false if there is nothing
+// to write to or the accessor takes arguments.
+func v4accScribbleResult(p *dhcpv4.DHCPv4, name string) (did bool) {
+	defer func() { recover() }()
+	m := reflect.ValueOf(p).MethodByName(name)
+	if !m.IsValid() || m.Type().NumIn() != 0 {
+		return false
+	}
+	var walk func(v reflect.Value, depth int)
+	walk = func(v reflect.Value, depth int) {
+		if depth > 6 || !v.IsValid() {
+			return
+		}
+		switch v.Kind() {
+		case reflect.Ptr, reflect.Interface:
+			if !v.IsNil() {
+				walk(v.Elem(), depth+1)
+			}
+		case reflect.Slice:
+			for i := 0; i < v.Len(); i++ {
+				e := v.Index(i)
+				if e.Kind() == reflect.Uint8 && e.CanSet() {
+					e.SetUint(0xee)
+					did = true
+				} else {
+					walk(e, depth+1)
+				}
+			}
+			if v.Len() > 1 && v.Index(0).CanSet() && v.Type().Elem().Kind() != reflect.Uint8 {
+				tmp := reflect.New(v.Type().Elem()).Elem()
+				tmp.Set(v.Index(0))
+				v.Index(0).Set(v.Index(v.Len() - 1))
+				v.Index(v.Len() - 1).Set(tmp)
+				did = true
+			}
+		case reflect.Map:
+			keys := v.MapKeys()
+			for _, k := range keys {
+				walk(v.MapIndex(k), depth+1)
+			}
+			if len(keys) > 0 {
+				v.SetMapIndex(keys[0], reflect.Value{})
+				did = true
+			}
+			if v.Type().Key().Kind() == reflect.Uint8 && v.Type().Elem() == reflect.TypeOf([]byte(nil)) {
+				v.SetMapIndex(reflect.ValueOf(uint8(0xb)).Convert(v.Type().Key()), reflect.ValueOf([]byte{10, 0, 0, 1}))
+				did = true
+			}
+		case reflect.Struct:
+			for i := 0; i < v.NumField(); i++ {
+				if v.Type().Field(i).IsExported() {
+					walk(v.Field(i), depth+1)
+				}
+			}
+		}
+	}
+	for _, r := range m.Call(nil) {
+		walk(r, 0)
+	}
+	return did
+}
